@@ -12,7 +12,8 @@
   * hypotheses: `wfTy` (a type that can be declared in C++), `hasTy` (a value of the type), and for the round trip
     `canonTy`/`canon` (the shapes excluded from it are listed at `decode_encode` and exhibited by the
     `finding_*` theorems below and by the harness as known findings).
-  * A: `varint_roundtrip`, `varint_size_formula`, `size_eq_length`, `decode_total_bounded`(`_state`),
+  * A: `varint_roundtrip`, `varint_size_formula`, `size_eq_length`, `calculated_size_eq_length`(`_stable`),
+       `cache_holder_is_size_cached`, `decode_total_bounded`(`_state`),
        `decode_encode`(`_into`), `empty_encoding_reads_as_default`
     B: `decode_returns_value`, `decode_fixpoint`, `unknown_fields_skipped`, `absent_keeps_default`,
        `field_parse_touches_only_its_member`, `field_order_irrelevant`, `pb_compat_reads`
@@ -26,6 +27,7 @@ import Babylon.Wire.LemmasUnknown
 import Babylon.Wire.LemmasFixpoint2
 import Babylon.Wire.LemmasPb
 import Babylon.Wire.LemmasOrder
+import Babylon.Wire.LemmasTraits
 
 namespace Babylon.Properties.C11
 open Babylon.Wire Babylon.Gen.Wire
@@ -102,6 +104,80 @@ varint and skip that many bytes; anything else fails. -/
 theorem gen_unknown_field_cases :
     unknownFieldCases = [(0, "varint64"), (5, "skip 4"), (1, "skip 8"), (2, "varint64;skip varint")] := by decide
 
+/-- The size traits every container header declares, as written in the source: a vector / list / array / set
+forwards `SERIALIZED_SIZE_CACHED` of its element, a map takes key **or** value (while `SERIALIZABLE` takes key
+**and** value), smart pointers forward it; `SERIALIZED_SIZE_COMPLEXITY` of a container is
+`T == TRIVIAL ? SIMPLE : COMPLEX`, of a map the default (COMPLEX), of a smart pointer the pointee's except that
+TRIVIAL becomes SIMPLE (since 0635990: a pointer can be null). -/
+theorem gen_trait_exprs :
+    traitExprs =
+      [("vector.SERIALIZABLE", "T.SERIALIZABLE"),
+       ("vector.SERIALIZED_SIZE_CACHED", "T.SERIALIZED_SIZE_CACHED"),
+       ("vector.SERIALIZED_SIZE_COMPLEXITY", "T.SERIALIZED_SIZE_COMPLEXITY==TRIVIAL?SIMPLE:COMPLEX"),
+       ("vectorBool.SERIALIZABLE", "true"),
+       ("vectorBool.SERIALIZED_SIZE_CACHED", "false"),
+       ("vectorBool.SERIALIZED_SIZE_COMPLEXITY", "SIMPLE"),
+       ("list.SERIALIZABLE", "T.SERIALIZABLE"),
+       ("list.SERIALIZED_SIZE_CACHED", "T.SERIALIZED_SIZE_CACHED"),
+       ("list.SERIALIZED_SIZE_COMPLEXITY", "T.SERIALIZED_SIZE_COMPLEXITY==TRIVIAL?SIMPLE:COMPLEX"),
+       ("array.SERIALIZABLE", "T.SERIALIZABLE"),
+       ("array.SERIALIZED_SIZE_CACHED", "T.SERIALIZED_SIZE_CACHED"),
+       ("array.SERIALIZED_SIZE_COMPLEXITY", "T.SERIALIZED_SIZE_COMPLEXITY==TRIVIAL?SIMPLE:COMPLEX"),
+       ("set.SERIALIZABLE", "T.SERIALIZABLE"),
+       ("set.SERIALIZED_SIZE_CACHED", "T.SERIALIZED_SIZE_CACHED"),
+       ("set.SERIALIZED_SIZE_COMPLEXITY", "T.SERIALIZED_SIZE_COMPLEXITY==TRIVIAL?SIMPLE:COMPLEX"),
+       ("map.SERIALIZABLE", "K.SERIALIZABLE&&V.SERIALIZABLE"),
+       ("map.SERIALIZED_SIZE_CACHED", "K.SERIALIZED_SIZE_CACHED||V.SERIALIZED_SIZE_CACHED"),
+       ("map.SERIALIZED_SIZE_COMPLEXITY", "<default>"),
+       ("uniquePtr.SERIALIZABLE", "T.SERIALIZABLE"),
+       ("uniquePtr.SERIALIZED_SIZE_CACHED", "T.SERIALIZED_SIZE_CACHED"),
+       ("uniquePtr.SERIALIZED_SIZE_COMPLEXITY", "T.SERIALIZED_SIZE_COMPLEXITY==TRIVIAL?SIMPLE:T.SERIALIZED_SIZE_COMPLEXITY"),
+       ("sharedPtr.SERIALIZABLE", "T.SERIALIZABLE"),
+       ("sharedPtr.SERIALIZED_SIZE_CACHED", "T.SERIALIZED_SIZE_CACHED"),
+       ("sharedPtr.SERIALIZED_SIZE_COMPLEXITY", "T.SERIALIZED_SIZE_COMPLEXITY==TRIVIAL?SIMPLE:T.SERIALIZED_SIZE_COMPLEXITY"),
+       ("string.SERIALIZABLE", "true"),
+       ("string.SERIALIZED_SIZE_CACHED", "<default>"),
+       ("string.SERIALIZED_SIZE_COMPLEXITY", "SIMPLE")] ∧
+    ptrInheritsTrivial = false ∧ trivialShortcutIn = ["vector", "array"] ∧ calculateFirstIffSizeCached = true := by
+  decide
+
+/-- struct {int32_t a; std::vector<int32_t> v} — a COMPLEX member: size-cached -/
+def tyCx : Ty := .agg false (.cons 1 (.int 32 true) (.num 0) (.cons 2 (.vec (.int 32 true)) .nil .nil))
+/-- struct {int32_t a; std::string s} — few simple members: not cached -/
+def tySmall : Ty := .agg false (.cons 1 (.int 32 true) (.num 0) (.cons 2 .str (.bytes []) .nil))
+/-- struct {float a; double b} — TRIVIAL -/
+def tyTrivial : Ty := .agg false (.cons 1 .f32 (.num 0) (.cons 2 .f64 (.num 0) .nil))
+/-- `k` int32_t members numbered 1…k -/
+def intFields : Nat → Nat → Fields
+  | 0, _ => .nil
+  | k + 1, n => .cons n (.int 32 true) (.num 0) (intFields k (n + 1))
+def tyMany : Ty := .agg false (intFields 10 1)
+def tyNine : Ty := .agg false (intFields 9 1)
+/-- struct : std::vector<int32_t> {int32_t a} — COMPLEX base class (known finding) -/
+def tyBaseCx : Ty := .agg true (.cons 1 (.vec (.int 32 true)) .nil (.cons 2 (.int 32 true) (.num 0) .nil))
+
+/-- the types whose `SERIALIZED_SIZE_COMPLEXITY` / `SERIALIZED_SIZE_CACHED` the translator compiles and prints -/
+def traitSamples : List (String × Ty) :=
+  [("f32", .f32), ("i32", .int 32 true), ("str", .str), ("vecf32", .vec .f32), ("veci32", .vec (.int 32 true)),
+   ("vecbool", .vec .bool), ("listf32", .list .f32), ("listi32", .list (.int 32 true)), ("seti32", .set (.int 32 true)),
+   ("arri32", .arr (.int 32 true) 3), ("arrf64", .arr .f64 2), ("map_i32_i32", .map (.int 32 true) (.int 32 true)),
+   ("uptrf32", .uptr .f32), ("sptrf64", .sptr .f64), ("uptri32", .uptr (.int 32 true)), ("sptrstr", .sptr .str),
+   ("small", tySmall), ("trivial", tyTrivial), ("cx", tyCx), ("many", tyMany), ("nine", tyNine),
+   ("outer", .agg false (.cons 1 tyCx .nil .nil)),
+   ("ptrtrivial", .agg false (.cons 1 (.uptr .f32) .null .nil)), ("basecx", tyBaseCx),
+   ("uptr_trivial", .uptr tyTrivial), ("vec_cx", .vec tyCx), ("vec_small", .vec tySmall), ("vec_trivial", .vec tyTrivial),
+   ("list_cx", .list tyCx), ("set_cx", .set tyCx), ("arr_cx", .arr tyCx 2), ("uptr_cx", .uptr tyCx),
+   ("sptr_many", .sptr tyMany), ("map_str_cx", .map .str tyCx), ("map_cx_i32", .map tyCx (.int 32 true)),
+   ("map_cx_many", .map tyCx tyMany), ("map_str_small", .map .str tySmall), ("map_i32_vec", .map (.int 32 true) (.vec (.int 32 true))),
+   ("map_str_uptrcx", .map .str (.uptr tyCx)), ("vec_map_str_cx", .vec (.map .str tyCx))]
+
+/-- The compiled `SerializeTraits<T>::SERIALIZED_SIZE_COMPLEXITY` and `::SERIALIZED_SIZE_CACHED` of 40 sample types —
+every container over cached / COMPLEX / SIMPLE / TRIVIAL elements, maps with a cached key only, a cached value only,
+both, neither — are what the model's `complexity` and `sizeCached` compute. -/
+theorem gen_trait_probes :
+    probedTraits = traitSamples.map (fun p => (p.1, complexity ptrInheritsTrivial p.2, sizeCached ptrInheritsTrivial p.2)) := by
+  decide
+
 /-- The source in /repo has the repaired shape the theorems below are about. -/
 theorem gen_source_is_repaired (dbg : Bool) : Cfg.ofSource dbg = Cfg.repaired dbg := by
   cases dbg <;> decide
@@ -126,6 +202,33 @@ produced. -/
 theorem size_eq_length (t : Ty) (ht : wfTy t = true) (v : Val) (hs : size t v < 2 ^ 32) :
     (encode t v).length = size t v :=
   encode_length t ht v hs
+
+/-- **Exact size, as the code computes it.**  `calcSize` is `calculate_serialized_size` with the
+"TRIVIAL element ⇒ n · size(value[0])" shortcut of vector.h / array.h.  For every declarable type, every well-typed
+value (encoding below 4 GiB), with the traits the source has now (`ptrInheritsTrivial = false`,
+`gen_trait_exprs`): the predicted size is the number of bytes produced. -/
+theorem calculated_size_eq_length (t : Ty) (ht : wfTy t = true) (v : Val) (hv : hasTy t v = true)
+    (hs : size t v < 2 ^ 32) : (encode t v).length = calcSize false t v := by
+  rw [calcSize_eq_size false t (sizeStable_of_repaired t) v hv]
+  exact encode_length t ht v hs
+
+/-- … and for either shape of the pointer traits (`inh`), on the types without a smart pointer that is declared
+TRIVIAL (`sizeStable`). -/
+theorem calculated_size_eq_length_stable (inh : Bool) (t : Ty) (ht : wfTy t = true) (hst : sizeStable inh t = true)
+    (v : Val) (hv : hasTy t v = true) (hs : size t v < 2 ^ 32) : (encode t v).length = calcSize inh t v := by
+  rw [calcSize_eq_size inh t hst v hv]
+  exact encode_length t ht v hs
+
+/-- **Whoever holds a size cache is SERIALIZED_SIZE_CACHED.**  `Serialization::serialize_to_string / _coded_stream`
+run `calculate_serialized_size` first exactly when `SERIALIZED_SIZE_CACHED` (`gen_trait_exprs`); `serialize` trusts
+the caches.  For every type — any nesting of vectors, lists, sets, arrays, maps (key OR value), smart pointers and
+aggregates — in which no aggregate has a COMPLEX base class (the recorded finding `oracle:complex-base-uncached`,
+`finding_complex_base_uncached`): if anything inside keeps a size cache (an aggregate with a COMPLEX member or ten
+weighted members), the type is SERIALIZED_SIZE_CACHED, so the caches are always filled before they are read.  (What
+the caches then hold is not modelled: that is the harness oracle `enc` / `enc2`.) -/
+theorem cache_holder_is_size_cached (inh : Bool) (t : Ty) (hb : noComplexBase inh t = true)
+    (hc : hasCacheInside inh t = true) : sizeCached inh t = true :=
+  cached_of_cacheInside inh t hb hc
 
 /-! ## A. Hostile input: termination and bounds -/
 
@@ -356,5 +459,26 @@ never return — the unreadable length is taken as 0, nothing is consumed, the l
 theorem witness_unreadable_length :
     parse { Cfg.repaired false with lenChecked := false } (.list .str) ⟨true, none⟩
       [255, 255, 255, 255, 255, 255, 255, 255, 255, 255, 255] .nil = .noret := by decide
+
+/-- Known finding `oracle:complex-base-uncached`, in the trait model: `struct S : std::vector<int32_t> {int32_t a}`
+keeps a per-base size cache but is not SERIALIZED_SIZE_CACHED — the hypothesis `noComplexBase` of
+`cache_holder_is_size_cached` is needed. -/
+theorem finding_complex_base_uncached :
+    hasCacheInside false tyBaseCx = true ∧ sizeCached false tyBaseCx = false ∧ noComplexBase false tyBaseCx = false := by
+  decide
+
+/-- Before 0635990 (`inh = true`): `std::vector<std::unique_ptr<float>> {nullptr, &1.5f}` — the pointer was declared
+TRIVIAL, the vector predicted `2 · size(value[0]) = 0` bytes and produced 4. -/
+theorem witness_nullable_ptr_trivial_size :
+    let t : Ty := .vec (.uptr .f32)
+    let v : Val := .cons .null (.cons (.some (.num 1069547520)) .nil)
+    wfTy t = true ∧ hasTy t v = true ∧ sizeStable true t = false ∧ calcSize true t v = 0 ∧ (encode t v).length = 4 ∧
+    calcSize false t v = 4 := by decide
+
+/-- With a map taking key AND value (the seeded change the sample probes catch): `unordered_map<std::string, Cx>` would
+hold caches without being SERIALIZED_SIZE_CACHED; with OR (the source, `gen_trait_exprs` / `gen_trait_probes`) it is. -/
+theorem witness_map_needs_or :
+    hasCacheInside false (.map .str tyCx) = true ∧ sizeCached false (.map .str tyCx) = true ∧
+    (sizeCached false .str && sizeCached false tyCx) = false := by decide
 
 end Babylon.Properties.C11
